@@ -118,6 +118,9 @@ class UnitX(Unit):
         self.emit_extension(out, G, rel, f, probe)
         out.spec(spec_section('X_spec.rs', 'complex-type-spec'))
         self.emit_complex_type(out, G, rel, f, probe)
+        out.spec(spec_section('X_spec.rs', 'node-spec'))
+        self._trusted += sections(out, 'X_glue.rs', ['node-callees'])
+        self.emit_node(out, G, probe)
         out.spec('}\n' + TAIL)
         return out
 
@@ -245,6 +248,22 @@ class UnitX(Unit):
                   origin={f'facet-{x}': 'property' for _, x in FACETS},
                   opaque=[G.opaque(out, m.group(0), 'Vec<String>')],
                   inserts=[{'pos': 'body_start', 'text': reveal(*[x for _, x in FACETS])}])
+
+    def emit_node(self, out, G, probe):
+        rel = 'model/node.rs'
+        f = SRC + rel
+        im = G.top(rel, 'impl', r'.*TryFromNode.* for RustNode')
+        open_container(out, im, f)
+        for c in im.children:
+            if c.kind == 'type':
+                emit_verbatim(out, c, f)
+        fn = child(im, 'fn', 'try_from_node')
+        splice_fn(out, fn, f, 'node::RustNode::try_from_node', probe=probe,
+                  ensures=[('component-kind-follows-the-tag', 'res is Ok ==> node_ok(node, res->Ok_0)'),
+                           ('in-the-current-target-namespace', 'res is Ok ==> res->Ok_0.in_namespace == current_tns(*final(doc))')],
+                  origin={'component-kind-follows-the-tag': 'property', 'in-the-current-target-namespace': 'property'},
+                  inserts=[{'pos': 'body_start', 'text': reveal('complexType', 'group', 'simpleType', 'element', 'targetNamespace')}])
+        close_container(out, im, f)
 
     def emit_complex_type(self, out, G, rel, f, probe):
         im = G.top(rel, 'impl', r'.*TryFromNode.* for ComplexProps')
